@@ -6,7 +6,7 @@ ENGINE = {'name': 'msmall',
  'case_type': 'mscase',
  'check': 'check',
  'imports': ['From L4.model Require Import GoBase MatchSmall.'],
- 'n_quick': 96,
+ 'n_quick': 240,
  'n_thorough': 1200,
  'timeout': 900,
  'serves': ['C04', 'C06', 'C14'],
